@@ -686,3 +686,40 @@ def rule_write_wrap_guard(ctx):
     if others:
         ctx.holds("WRAPPOS", "WRAPPOS:direct-callers", f.where(), "direct calls of slot routines outside Hwrite (%s) pass lengths computed from existing element sizes" % ", ".join(sorted(others)[:4]), nontrivial=False)
     return len(a.sites)
+
+
+def rule_end_sum_terms(ctx):
+    """ENDSUM (C20): a write of `length` bytes at position `posn` of an element that starts at `data_off` ends at
+    data_off + posn + length.  Every guard of Hwrite of the form `X > INT32_MAX - E` bounds a prefix of that sum; whatever the
+    prefix, it contains the two per-call terms, the position and the length.  A guard that leaves one of them out (e.g.
+    `data_off > INT32_MAX - length`) lets a second write to an element near 2^31 push the element's end past the limit."""
+    prog = ctx.prog
+    f = prog.func("Hwrite")
+    if f is None:
+        ctx.unrecognised("ENDSUM", "ENDSUM:Hwrite", "-", "Hwrite not found")
+        return 0
+    n = 0
+    seen = set()
+    for b in f.blocks.values():
+        t = b.get("term")
+        if not t or t.get("cond") is None:
+            continue
+        for x in walk(t["cond"], True):
+            if x[0] == "bin" and x[1] in (">", ">="):
+                r = strip(x[3])
+                if kind(r) == "bin" and r[1] == "-" and is_int(r[2]) and int_val(r[2]) == INT32_MAX:
+                    rr = render(x)
+                    if rr in seen:
+                        continue
+                    seen.add(rr)
+                    n += 1
+                    names = {y[1] for y in walk(x, True) if y[0] == "var"} | {y[2] for y in walk(x, True) if y[0] == "mem"}
+                    key = "ENDSUM:Hwrite#%d" % n
+                    missing = [w for w in ("posn", "length") if w not in names]
+                    if missing:
+                        ctx.violated("ENDSUM", key, f.where(t.get("l")), "the guard `%s` bounds the end of the write without the term `%s`: a write at a later position of an element near the "
+                                     "2^31 limit is accepted and the element's end wraps" % (rr[:80], "`, `".join(missing)))
+                    else:
+                        ctx.holds("ENDSUM", key, f.where(t.get("l")), "`%s` contains position and length" % rr[:70], nontrivial=True)
+    ctx.floor("ENDSUM", 2, n, "(INT32_MAX guards in Hwrite)")
+    return n
